@@ -392,6 +392,20 @@ def key_eq_calls(body):
     return out
 
 
+def has_key_param(b):
+    """the body searches for one key: it has a parameter of the lookup-key type (&Q) or an owned key (K) next to a hash"""
+    tys = [b.ty(k)["s"] for k in range(1, b.nargs + 1)]
+    return any(t in ("&Q", "&K") for t in tys) or ("K" in tys and "u64" in tys) or (b.name in ("put",) and "K" in tys)
+
+
+def is_finder(facts, x):
+    tb = facts.by_id.get(x.resolved)
+    if tb is None or is_link_load(x):
+        return False
+    ret = (tb.sig or "").split("->")[-1]
+    return (("reclaim::Shared<" in ret and "node::BinEntry" in ret) or "node::Node<" in ret) and has_key_param(tb)
+
+
 def rule_l8(ctx, facts):
     """no update or lookup result is attributed to another key: a node is treated as `the entry for this key` only on the true edge of the
     user's key equality (and its value slot is only touched there)"""
@@ -400,7 +414,7 @@ def rule_l8(ctx, facts):
         if b.kind == "Closure":
             continue
         eqs = key_eq_calls(b)
-        if not eqs:
+        if not has_key_param(b):
             continue
         fl = flow(b)
         true_edges = []
@@ -428,8 +442,7 @@ def rule_l8(ctx, facts):
                 if not ok:
                     # the node was delivered by a finder (a function returning the matching node), which is judged itself
                     rl = op_root(c.args[0])
-                    finders = [x for x in fl.call_roots(rl) if x is not None and x.resolved in facts.by_id and not is_link_load(x)
-                               and "node::BinEntry" in (facts.by_id[x.resolved].sig or "").split("->")[-1] and "reclaim::Shared<" in (facts.by_id[x.resolved].sig or "").split("->")[-1]]
+                    finders = [x for x in fl.call_roots(rl) if x is not None and is_finder(facts, x)]
                     if finders:
                         ctx.inst("L8", b, "%s of a node's value" % k, c.span, True, "node delivered by the finder %s" % strip_generics(finders[0].resolved))
                         continue
@@ -450,8 +463,7 @@ def rule_l8(ctx, facts):
                         roots = fl.roots_at(src, Point(bi, si))
                         calls = [b.call_at(r[1]) for r in roots if r[0] == "call"]
                         # null results and results of nested finders are not judged here
-                        if calls and all(callee_str(x).endswith("Shared::null") or (x.resolved in facts.by_id and "-> reclaim::Shared<" in (facts.by_id[x.resolved].sig or ""))
-                                         and not is_link_load(x) for x in calls):
+                        if calls and all(callee_str(x).endswith("Shared::null") or is_finder(facts, x) for x in calls):
                             continue
                         n += 1
                         ok = bool(true_edges) and dominated_by_edge(b, Point(bi, si), true_edges)
@@ -459,6 +471,8 @@ def rule_l8(ctx, facts):
                                  "only on the true edge of the key comparison" if ok else
                                  "a node is returned as the match at %s although its key was not compared equal on that path" % st["span"])
                 c = b.call_at(bi)
+                if c is not None and c.dst_local() == 0 and is_finder(facts, c):
+                    continue
                 if c is not None and c.dst_local() == 0 and callee_str(c).endswith("Shared::from"):
                     n += 1
                     ok = bool(true_edges) and dominated_by_edge(b, c.point, true_edges)
